@@ -33,6 +33,11 @@ func coreOf[T any](c *Chan[T]) *chanCore {
 	return &c.core
 }
 
+// globalChans are channels made while no execution is running: package-level variables of the translated code
+// (`var slots = make(chan struct{}, 256)`). They live as long as the process; every execution starts with them
+// empty and open, under an identity that does not depend on the schedule.
+var globalChans []*chanCore
+
 func MakeChan[T any](n int) *Chan[T] {
 	x := X
 	if n < 0 {
@@ -40,6 +45,11 @@ func MakeChan[T any](n int) *Chan[T] {
 	}
 	c := &Chan[T]{}
 	c.core.cap = n
+	if x == nil {
+		c.core.id = fmt.Sprintf("g#%d", len(globalChans))
+		globalChans = append(globalChans, &c.core)
+		return c
+	}
 	if x.cur != nil {
 		c.core.id = fmt.Sprintf("%s#%d", x.cur.ID, x.cur.nchan)
 		x.cur.nchan++
